@@ -509,7 +509,7 @@ func init() {
 		ID:    "C13",
 		Level: "exploration",
 		Cases: func(tier string) int { return tierN(tier, 900, 30000) },
-		Rule: "three case kinds by index mod 3. (0) forward: one history (10-45 ops; initial versions incl. 8150 so that version/nonce/size varints cross 1- and 2-byte boundaries; pruning, rollback, reopen) after EVERY step of which the raw storage is decoded by the independent decoder D and compared with the reference tree R for every retained version: node key numbering, heights, sizes, keys, values, stored inner hashes, child links, root marker kind and reference target, byte-exact equality of every stored node with D's ENCODER applied to R's node (catches non-canonical varints), numeric iteration order of the 's' keys. " +
+		Rule: "three case kinds by index mod 3. (0) forward: one history (10-45 ops; in half of them WorkingHash() is called between the writes of a version, which memoises node hashes and must not change what is stored; initial versions incl. 8150 so that version/nonce/size varints cross 1- and 2-byte boundaries; pruning, rollback, reopen) after EVERY step of which the raw storage is decoded by the independent decoder D and compared with the reference tree R for every retained version: node key numbering, heights, sizes, keys, values, stored inner hashes, child links, root marker kind and reference target, byte-exact equality of every stored node with D's ENCODER applied to R's node (catches non-canonical varints), numeric iteration order of the 's' keys. " +
 			"(1) reverse: a database written only by D's encoder from R's trees (1-6 versions, reference roots in the 13-byte and the old 9-byte form, empty roots, with/without fast index and label, initial versions) is opened by iavl: Load, contents, Get and hash of every version, and a further commit must agree with R. " +
 			"(2) totality: 400 (quick) / 4000 (thorough) inputs per case - truncations, bit flips, length-field inflation up to 2^64-1, continuation-byte runs, appended garbage, random bytes, all derived from valid encodings of leaf/inner/legacy-child/legacy nodes, fast nodes and root markers - given to MakeNode, MakeLegacyNode, fastnode.DeserializeNode, DecodeBytes/DecodeUvarint/DecodeVarint (verif hook) and the reference-root reader (VersionExists/GetImmutable/LoadVersion over a store with a crafted root entry): a panic or an allocation beyond 256*len+64KiB (sampled 1 in 16 with runtime.MemStats) is a violation; a hang trips the per-case watchdog. " +
 			"distinct = hash(kind, config, ops / index); non-trivial = forward: >=2 commits; reverse: >=2 versions; totality: always.",
@@ -564,6 +564,12 @@ func init() {
 					}
 					if op.Kind == "save" && out.Err == nil {
 						saves++
+					}
+					// read-only hash / proof calls between the writes of a version memoise node hashes;
+					// what is stored at the next commit must not depend on them (cases with c.Index%4 >= 2)
+					if c.Index%4 >= 2 && (op.Kind == "set" || op.Kind == "rm") && i%2 == 0 {
+						e.T.WorkingHash()
+						c.Obs("hash_calls_between_writes", 1)
 					}
 					if op.Kind != "set" && op.Kind != "rm" && op.Kind != "rollback" {
 						compareFormat(e)
